@@ -9,14 +9,14 @@ ALL = ["C%02d" % i for i in range(1, 21)]
 CLAIMS = {
     "C13": dict(
         category="model_checking", design_ref="DESIGN.md section 4, C13",
-        technique="TLA+ spec ControlPoints/ControlPointOps checked by TLC (complete reachable graph per kind + bounded combined sequences); one real-code test per TLC transition; trace validation of recorded random histories (Trace_ControlPoints; time pools contain ulp-neighbours, points are struct literals incl. out-of-range values); Apalache inductive-invariant check of strict sortedness for arbitrary integer times",
+        technique="TLA+ spec ControlPoints/ControlPointOps checked by TLC (complete reachable graph per kind + bounded combined sequences); one real-code test per TLC transition; trace validation of recorded random histories (Trace_ControlPoints; time pools contain ulp-neighbours, points are struct literals incl. out-of-range values); Apalache inductive-invariant check of strict sortedness for arbitrary integer times; seed-drawn value alphabets (RandCP.tla); both readings of a repeat of a non-finite velocity (DifRed/DifRedW) with the code's named as a known finding; fixed histories for the two zeros (cp negzero)",
         text="TLC checks ordering, one-point-per-time, redundancy (as an action property) and lookup semantics on the complete reachable state graph of add operations over the property's alphabet; every transition of that graph is replayed through the real ControlPoints::add and *_point_at and compared state-for-state, and random long histories with fractional/negative times recorded from the real API are validated against the same spec.",
-        note="Trusted: TLC, the harness projection (cp.rs, ~100 lines), times finite and not -0.0; values on a 1/1000 lattice."),
+        note="Trusted: TLC, the harness projection (cp.rs, ~100 lines), times finite (-0.0 only in the fixed histories); values on a 1/1000 lattice."),
 }
 
 CLAIMS["C05"] = dict(
     category="model_checking", design_ref="DESIGN.md section 4, C05",
-    technique="TLA+ spec Framing (one action per branch of the decode driver) refined to a declarative framing rule, checked by TLC on all files up to a length bound; every TLC-generated file replayed into rosu-map in 4 encodings through a recording DecodeBeatmap implementor; trace validation (Trace_Framing) of per-line deliveries recorded on bundled and random files",
+    technique="TLA+ spec Framing (one action per branch of the decode driver) refined to a declarative framing rule, checked by TLC on all files up to a length bound; every TLC-generated file replayed into rosu-map in 4 encodings through a recording DecodeBeatmap implementor; trace validation (Trace_Framing) of per-line deliveries recorded on bundled and random files; seed-drawn format versions over the whole accepted range and headers (RandFraming.tla), seed-generated spellings of blanks and near-headers",
     text="TLC proves, for every file of line kinds up to the bound, that the operational driver (version slot, use-current-line, first-section scan, section loop) computes exactly the declarative rule of the property, that blank/comment lines are outcome-neutral and that every behaviour terminates; the real driver is bound to the model in both directions: every enumerated file is decoded by the real code and compared with the predicted version and deliveries, and line-by-line recordings of the real driver on bundled and long random files must be behaviours of the same actions.",
     note="Trusted: TLC, the spelling table + classifier in harness/src/framing.rs (self-checked), the byte-counting BufRead used to attribute deliveries to lines. Text decoding/line splitting is C08/C10.")
 CLAIMS["C07"] = dict(
@@ -70,7 +70,7 @@ CLAIMS["C08"] = dict(
     note="Trusted: TLC, harness ScheduledReader (BufRead contract), Beatmap's PartialEq plus expected_dist comparison.")
 CLAIMS["C09"] = dict(
     category="fault_enumeration", design_ref="DESIGN.md section 4, C09",
-    technique="TLA+ spec Reader with a fault environment (failure at any offset x kind, Interrupted budget): invariant ErrorProvenance and liveness FaultSurfaces/Terminates checked by TLC; replay through a faulting BufRead; systematic fault injection at every read offset and every write offset of real files (FaultWriter: error kinds, zero-length writes, short writes, Interrupted, flush failure); Writer.tla (the Write object as environment of write_all/flush) with every script of per-call answers replayed into Beatmap::encode; the model's fault kind concretised as ten different io::ErrorKinds",
+    technique="TLA+ spec Reader with a fault environment (failure at any offset x kind, Interrupted budget): invariant ErrorProvenance and liveness FaultSurfaces/Terminates checked by TLC; replay through a faulting BufRead; systematic fault injection at every read offset and every write offset of real files (FaultWriter: error kinds, zero-length writes, short writes, Interrupted, flush failure); Writer.tla (the Write object as environment of write_all/flush) with every script of per-call answers (incl. a transient Interrupted from flush) replayed into Beatmap::encode; schedules with interruptions compared with the same chunks without them; the model's fault kind concretised as ten different io::ErrorKinds",
     text="On the model TLC enumerates every fault offset and kind under every schedule and checks that decoding ends with exactly that error iff the fault is reached, that Interrupted never surfaces and that no error appears without a reader failure; the real code is replayed on those behaviours, and on bundled/random files a fault is injected at every byte offset (sampled for large files) x five kinds on read and at every output offset on write (hard error, zero-length write), with short writes and Interrupted writes required to be transparent and a flush failure required to be returned.",
     note="Fault enumeration is exhaustive on the model's short files and on small real files; large files use sampled offsets. The write side is bound by injection only (no TLA+ model of std's write_all).")
 CLAIMS["C10"] = dict(
@@ -81,9 +81,9 @@ CLAIMS["C10"] = dict(
 
 CLAIMS["C11"] = dict(
     category="model_checking", design_ref="DESIGN.md section 4, C11",
-    technique="TLA+ spec Records: table-driven format rules (type per key, conversion per type, defaults, event and colour rules) with invariants LastWins, ARRule, Ranges and the action property RejectStutters checked by TLC on all record sequences up to a bound; every sequence replayed through the section's own decoder and Beatmap with field-by-field and per-line verdict comparison; trace validation of long random record sequences per section (Trace_Records); seed-generated randomised alphabets for the key/value sections (RandRecords.tla)",
+    technique="TLA+ spec Records: table-driven format rules (type per key, conversion per type, defaults, event and colour rules) with invariants LastWins, ARRule, Ranges and the action property RejectStutters checked by TLC on all record sequences up to a bound; every sequence replayed through the section's own decoder and Beatmap with field-by-field and per-line verdict comparison; trace validation of long random record sequences per section (Trace_Records); seed-generated randomised alphabets for the key/value sections (RandRecords.tla); the two number limits carried in both readings (ParseF/ParseFW, ConvBm/ConvBmW), the code's named as known findings",
     text="The rules of the statement are written as TLA+ tables independent of the Rust call graph; TLC enumerates every sequence of up to 2-3 records over every recognised key x value class (valid, boundary, overflow, NaN/inf, empty, padded, comment-suffixed, extra colon, enum names) plus unknown keys, duplicates, all event kinds and colour shapes, and checks last-valid-wins, the AR-follows-OD rule, clamps, break ordering and that a rejected record is a stutter; the real decoders must produce exactly the predicted struct and verdicts.",
-    note="Trusted: TLC, the spelling table and projections in harness/src/records.rs. Floats on a 1/100 lattice; 2^31 / 2^31-1 are not given to f32 fields (not representable).")
+    note="Trusted: TLC, the spelling table and projections in harness/src/records.rs. Floats on a 1/100 lattice; +-2^31 in a single-precision field is a sentinel in the model (hundredths of it do not fit TLC's integers).")
 
 CLAIMS["C02"] = dict(
     category="model_checking", design_ref="DESIGN.md section 4, C02 and section 7",
